@@ -1,17 +1,16 @@
 #!/bin/bash
-# usage: seed_verify.sh <ID>  -- confirm a seeded change in its scratch worktree (/tmp/wt_<ID>, /tmp/seed_<ID>)
+# usage: seed_verify.sh <TAG>  -- confirm a seeded change in its scratch worktree (/tmp/wt_<TAG>, /tmp/seed_<TAG>)
 ID=$1; WT=/tmp/wt_$ID; SD=/tmp/seed_$ID
 cd $WT || exit 2
-git checkout -q -- src/tests.rs
-git diff --quiet -- src/engine.rs && { echo "no patch applied in worktree"; git apply $SD/patch.diff || exit 2; }
-git diff -- src/engine.rs > /tmp/seed_$ID/patch.check.diff
+git checkout -q -- src/tests.rs src/engine.rs
+A0=$(cargo test --offline --lib 2>&1 | grep "test result" | head -1)
+git apply $SD/patch.diff || { echo "patch does not apply"; exit 2; }
 A=$(cargo test --offline --lib 2>&1 | grep "test result" | head -1)
 echo "with patch, original tests: $A"
 cat $SD/demo_test.rs >> src/tests.rs
 B=$(cargo test --offline --lib 2>&1 | grep "test result" | head -1)
 echo "with patch, + demo: $B"
-git stash -q -- src/engine.rs
+git checkout -q -- src/engine.rs
 C=$(cargo test --offline --lib 2>&1 | grep "test result" | head -1)
 echo "without patch, + demo: $C"
-git stash pop -q
 git checkout -q -- src/tests.rs
